@@ -40,7 +40,8 @@ func loadTerms(path string) map[string][]iss.Term {
 }
 
 var kindOID = map[string]string{"ku": "2.5.29.15", "bc": "2.5.29.19", "san": "2.5.29.17", "skid": "2.5.29.14",
-	"custom": "1.3.6.1.4.1.99999.6", "poison": "1.3.6.1.4.1.11129.2.4.3", "sct": "1.3.6.1.4.1.11129.2.4.2", "sct0": "1.3.6.1.4.1.11129.2.4.2"}
+	"custom": "1.3.6.1.4.1.99999.6", "poison": "1.3.6.1.4.1.11129.2.4.3", "sct": "1.3.6.1.4.1.11129.2.4.2", "sct0": "1.3.6.1.4.1.11129.2.4.2",
+	"poisonnc": "1.3.6.1.4.1.11129.2.4.3", "sctc": "1.3.6.1.4.1.11129.2.4.2"}
 
 // pairObs builds the two certificates of a CT case and observes them.
 func pairObs(terms map[string][]iss.Term, c iss.CTCase, serial int64) map[string]any {
